@@ -785,14 +785,39 @@ Proof.
   exists d, k. split; [|exact Hle]. apply stall_ends_at_deadline; auto.
 Qed.
 
-(* progress before the deadline re-arms the data timer at the instant of the progress *)
-Theorem data_progress_rearms : forall c s dr p t, alive s -> xf s = XMove dr p ->
-  (forall d k, end_dl std_wiring c s = Some (d, k) -> t < d) ->
-  step std_wiring c s (DataProgress t) = set_xf s (XMove dr t).
+(* progress before the deadline re-arms the data timer at the instant the NEXT operation starts: the instant
+   of the progress plus the stream's throttle wait d, however long that wait is *)
+Theorem data_progress_rearms : forall c s dr p t d, alive s -> xf s = XMove dr p ->
+  (forall x k, end_dl std_wiring c s = Some (x, k) -> t < x) ->
+  step std_wiring c s (DataProgress t d) = set_xf s (XMove dr (t + d)).
 Proof.
-  intros c s dr p t Ha Hx Hd.
-  destruct (never_before_bound std_wiring c s (DataProgress t) eq_refl Ha Hd) as [A E].
+  intros c s dr p t d Ha Hx Hd.
+  destruct (never_before_bound std_wiring c s (DataProgress t d) eq_refl Ha Hd) as [A E].
   rewrite E, fire_wait_not_waiting by (intros; congruence). cbn. rewrite Hx. reflexivity.
+Qed.
+
+(* ... so the throttle wait is not counted against socket_timeout: after progress at t with a wait d the
+   data deadline is due (t + d) socket_timeout, and an event before it finds the session alive *)
+Theorem data_pause_not_counted : forall c s dr p t d x e, alive s -> xf s = XMove dr p ->
+  socket c = Some x ->
+  (forall y k, end_dl std_wiring c s = Some (y, k) -> t < y) ->
+  let s' := step std_wiring c s (DataProgress t d) in
+  data_dl std_wiring c s' = Some (due (t + d) x, CData) /\
+  ((forall y k, idle_dl std_wiring c s' = Some (y, k) -> time_of e < y) ->
+   (forall y k, cw_dl std_wiring c s' = Some (y, k) -> time_of e < y) ->
+   time_of e < due (t + d) x -> alive (step std_wiring c s' e)).
+Proof.
+  intros c s dr p t d x e Ha Hx Hs Hd s'.
+  assert (E : s' = set_xf s (XMove dr (t + d))) by (apply data_progress_rearms with (p := p); auto).
+  assert (D : data_dl std_wiring c s' = Some (due (t + d) x, CData)).
+  { apply data_dl_set with (d := dr); auto. rewrite E. reflexivity. }
+  split; [exact D|]. intros Hi Hc Ht.
+  apply (never_before_bound std_wiring c s' e eq_refl).
+  - unfold alive. rewrite E. exact Ha.
+  - intros y k Hy. destruct (end_dl_sources _ _ _ _ _ Hy) as [S|[S|S]].
+    + exact (Hi y k S).
+    + rewrite D in S. injection S as Hy' _. rewrite <- Hy'. exact Ht.
+    + exact (Hc y k S).
 Qed.
 
 (* a blocked control-channel write (peer does not read replies) is bounded by socket_timeout *)
